@@ -81,6 +81,82 @@ def rule_h(F):
     return res
 
 
+def all_variant_names(p, out=None):
+    """names of all enum variants mentioned anywhere in a pattern (tuple / reference patterns included)"""
+    if out is None:
+        out = []
+    if isinstance(p, dict):
+        if p.get("k") in ("tuple_struct", "struct", "path") and isinstance(p.get("path"), dict):
+            r = p["path"].get("res", {})
+            nm = short(r.get("path", "") or r.get("ctor_of", ""))
+            if "::" in nm and (str(r.get("def_kind", "")).startswith(("Ctor", "Variant")) or r.get("ctor_of")):
+                out.append(nm.rsplit("::", 1)[-1])
+        for v in p.values():
+            all_variant_names(v, out)
+    elif isinstance(p, list):
+        for v in p:
+            all_variant_names(v, out)
+    return out
+
+
+def rule_t(F):
+    """tables: equality and hash treat the row order alike. Eq that compares the rows position by position (zip of the two
+    iterators) is order-sensitive, eq that looks each row of one table up in the other is order-insensitive; a Hash that
+    feeds the rows to one sequential hasher is order-sensitive. Order-insensitive eq with an order-sensitive hash makes
+    equal tables hash differently."""
+    res = []
+    ty = "vm::runtime::cao_lang_object::CaoLangObject"
+    key = "C19/T/CaoLangObject::Table/eq-and-hash-agree-on-row-order"
+    fe = impl_fn(F, "cmp::PartialEq", ty, "eq")
+    fh = impl_fn(F, "hash::Hash", ty, "hash")
+
+    def table_arm(f):
+        m = match_arms(f)
+        if m is None:
+            return None
+        for a in m["arms"]:
+            kinds = all_variant_names(a["pat"])
+            if kinds and all(k == "Table" for k in kinds):
+                return a
+        return None
+    ae, ah = table_arm(fe), table_arm(fh)
+    if ae is None or ah is None:
+        raise AnchorMissing("Table arms of PartialEq / Hash for CaoLangObject")
+    zips = [y for y in hir_walk(ae["body"]) if y.get("k") == "mcall" and y["name"] in ("zip", "eq", "cmp", "partial_cmp")
+            and any(n.startswith("std::iter::Iterator::") for n in hir_callee(y))]
+    lookups = [y for y in hir_walk(ae["body"]) if y.get("k") == "mcall" and y["name"] in ("get", "get_mut", "contains", "contains_key")
+               and any("CaoLangTable::" in n or "CaoHashMap::" in n for n in hir_callee(y))]
+    if lookups:
+        eq_kind = "order-insensitive (rows of one table are looked up in the other, line %s)" % lookups[0].get("ln")
+        eq_ordered = False
+    elif zips:
+        eq_kind = "order-sensitive (rows compared position by position)"
+        eq_ordered = True
+    else:
+        return [undecided("C19.T", key, fe.loc(ae.get("ln")), "how table equality walks the rows was not recognised")]
+    # hash: rows fed to the single hasher `state` inside a loop over iter()
+    seq = False
+    commut = False
+    for y in hir_walk(ah["body"]):
+        if y.get("k") == "mcall" and y["name"] == "hash" and any(n.endswith("Hash::hash") for n in hir_callee(y)):
+            seq = True
+        if y.get("k") in ("bin", "assign_op") and y.get("op") in ("BitXor", "BitXorAssign") or \
+                (y.get("k") == "mcall" and y["name"] in ("wrapping_add", "wrapping_mul")):
+            commut = True
+    if commut:
+        return [undecided("C19.T", key, fh.loc(ah.get("ln")), "the table hash combines per-row values; order sensitivity not decided")]
+    if not seq:
+        return [undecided("C19.T", key, fh.loc(ah.get("ln")), "the table hash feeds nothing recognisable to the hasher")]
+    if eq_ordered:
+        res.append(ok("C19.T", key, fe.loc(ae.get("ln")), "eq is %s, the hash feeds the rows in the same order to one hasher" % eq_kind))
+    else:
+        res.append(bad("C19.T", key, fe.loc(ae.get("ln")),
+                       "table equality is %s but Hash for CaoLangObject feeds the rows to one sequential hasher in insertion order: two "
+                       "tables with the same rows inserted in a different order compare equal and hash differently, so one does not find "
+                       "the row stored under the other as a table key" % eq_kind))
+    return res
+
+
 def rule_e(F):
     res = []
     for ty in ("value::Value", "vm::runtime::cao_lang_object::CaoLangObject"):
@@ -172,6 +248,7 @@ def rule_z(F):
 
 RULES = [
     Rule("C19.H", rule_h, 6, "hash never finer than eq (no pointer identity in the hasher)"),
+    Rule("C19.T", rule_t, 1, "table equality and hash agree on row order"),
     Rule("C19.E", rule_e, 6, "eq answers true only for same-kind pairs"),
     Rule("C19.O", rule_o, 2, "ordering of objects never contradicts equality"),
     Rule("C19.Z", rule_z, 1, "hash 0 mapped away (shared with C12.Z)"),
